@@ -375,4 +375,49 @@ def check(run, F, tier):
                 r3.ok(key)
     run.cov_extra["exhaustive"] = True
     run.cov_extra["cells"] = {"role_table": len(variants) * 3, "state_cells": r3.instances}
+    check_persistence_input(run, F)
     conn.prune_path_cache(F)
+
+
+def check_persistence_input(run, F):
+    """R6: `need_store` is the "persistent session" input of the state gate (QoS>0 PUBLISH / PUBREL are accepted outside
+    Connected only when it is set).  In the v5.0 handshake handlers it may be raised only by a clean-start flag that is
+    clear or by a Session Expiry Interval whose value is decided non-zero on the path - an interval of 0 is the protocol's
+    way of saying "no session" (MQTT 5.0 3.1.2.11.2)."""
+    r6 = run.rule("C11-R6", "v5.0 handshake: the persistence flag is raised only for clean-start = 0 or a non-zero Session Expiry Interval", floor=3)
+    hs = {}
+    hs.update({("send",) + k: f for k, f in conn.handlers(F, "process_send").items() if k in (("v5_0", "connect"),)})
+    hs.update({("recv",) + k: f for k, f in conn.handlers(F, "process_recv").items() if k in (("v5_0", "connect"), ("v5_0", "connack"))})
+    if len(hs) != 3:
+        r6.violation("anchor", "v5.0 CONNECT / CONNACK handlers not found (anchor lost)")
+        return
+    for key, f in sorted(hs.items()):
+        res = conn.paths(F, f["path"])
+        interned = res["interned"]
+        n = 0
+        bad = None
+        for p in res["paths"]:
+            if p.kind != "return":
+                continue
+            ws = [e for e in p.effects if e[0] == "write" and e[1] == ("self",) and conn.field_of_write(e) == "need_store" and e[3] == ("c", 1, "bool")]
+            if not ws:
+                continue
+            n += 1
+            just = False
+            for _, e in conn.calls(p, "::clean_start") + conn.calls(p, "::clean_session"):
+                if conn.truth(p, e) is False:
+                    just = True
+            for _, e in conn.calls(p, "SessionExpiryInterval::val"):
+                if conn.decide(p, interned, ("c", 0, "u32"), "lt", e[4]) is True:
+                    just = True
+            if not just:
+                bad = p
+        name = f["name"]
+        if bad is not None:
+            r6.violation(name, "%s sets need_store = true on a path where neither the clean-start flag is clear nor a Session Expiry Interval is known to be "
+                         "non-zero (an interval of 0 would make the session persistent: QoS>0 sends are then accepted and stored outside Connected)" % name,
+                         conn.path_summary(bad), site="%s:%s" % (f["file"], f["line"]))
+        elif n == 0:
+            r6.violation(name, "%s never raises need_store on any explored path (anchor lost)" % name)
+        else:
+            r6.ok(name, {"paths_raising_the_flag": n})
